@@ -756,11 +756,13 @@ func RunC18(cfg Config) (*ShardResult, error) {
 				if lim.allCombos || bound[k] {
 					for _, kind := range simio.WriteFaultKinds {
 						for _, short := range []bool{true, false} {
-							fs = append(fs, simio.WriteFault{Offset: k, Kind: kind, Short: short})
+							for _, transient := range []bool{false, true} {
+								fs = append(fs, simio.WriteFault{Offset: k, Kind: kind, Short: short, Transient: transient})
+							}
 						}
 					}
 				} else {
-					fs = append(fs, simio.WriteFault{Offset: k, Kind: simio.WriteFaultKinds[(k/2+ki)%len(simio.WriteFaultKinds)], Short: k%2 == 0})
+					fs = append(fs, simio.WriteFault{Offset: k, Kind: simio.WriteFaultKinds[(k/2+ki)%len(simio.WriteFaultKinds)], Short: k%2 == 0, Transient: (k/4+ki)%2 == 1})
 				}
 				for fi, f := range fs {
 					f := f
@@ -782,6 +784,9 @@ func RunC18(cfg Config) (*ShardResult, error) {
 							res.Probes["short_write"]++
 						} else {
 							res.Probes["zero_write"]++
+						}
+						if f.Transient {
+							res.Probes["transient_write_fault"]++
 						}
 						if seen.add(Key64("write", sh, writer, fmt.Sprint(f), medium)) {
 							res.Distinct++
